@@ -132,6 +132,25 @@ def exhaustive(gates, quick):
         for op in ["(assign %s %s)" % (tgt, t(9, 7)), "(compound add %s %s)" % (tgt, t(9, 5)), "(compound shl %s (lit 2))" % tgt,
                    "(expr (incdec post inc %s))" % tgt, "(expr (incdec pre dec %s))" % tgt]:
             yield prog("(declarr - int a (dims 3) (init (lit 4) (lit 5) (lit 6))) (decl - int k (lit 0)) %s %s" % (op, show1))
+    # (i) initialiser lists, struct members, loop headers, returns: every operand once, in source order
+    yield prog("(declarr - int a (dims 3) (init %s %s %s)) (print (e (idx a (lit 0))) (e (idx a (lit 1))) (e (idx a (lit 2))))" % (t(1, 4), t(2, 5), t(3, 6)))
+    S2 = "(struct S (field int x) (field int y) (field int g 3))"
+
+    def sprog(body):
+        return ("(prog (structs %s) (globals) (funcs %s %s %s (func main int (params) (%s (print (s \"END\")) (ret (lit 0))))))" % (S2, T, BOOM, G3, body))
+    yield sprog("(declstructinit - S s %s %s) (print (e (fld s x)) (e (fld s y)))" % (t(1, 7), t(2, 8)))
+    for op in ["(assign (fld s x) %s)" % t(1, 7), "(compound add (fld s y) %s)" % t(1, 2), "(compound mul (fld s x) (bin add %s %s))" % (t(1, 2), t(2, 1)),
+               "(assign (fldidx s g %s) %s)" % (t(1, 1), t(2, 9)), "(compound add (fldidx s g %s) %s)" % (t(1, 2), t(2, 3)),
+               "(compound sub (fldidx s g (bin sub %s (lit 1))) (lit 4))" % t(1, 2), "(expr (incdec post inc (fldidx s g %s)))" % t(1, 0),
+               "(expr (incdec pre dec (fld s x)))", "(expr (incdec post inc (fld s y)))"]:
+        yield sprog("(declstruct S s) (assign (fld s x) (lit 3)) (assign (fld s y) (lit 4)) (assign (fldidx s g (lit 1)) (lit 5)) %s "
+                    "(print (e (fld s x)) (e (fld s y)) (e (fldidx s g (lit 0))) (e (fldidx s g (lit 1))) (e (fldidx s g (lit 2))))" % op)
+    # for header: init once, condition before every iteration, update after every iteration
+    yield prog("(for (decl - int i %s) (bin lt (var i) %s) (compound add (var i) %s) ((print (s \"body\") (e (var i)))))" % (t(1, 0), t(2, 2), t(3, 1)))
+    yield prog("(decl - int i (lit 0)) (while (bin land (bin lt (var i) (lit 2)) %s) ((compound add (var i) %s)))" % (t(1, 1), t(2, 1)))
+    yield prog("(decl - long r (call sum2)) (print (e (var r)))", "(func sum2 long (params) ((ret (bin add %s (bin mul %s %s)))))" % (t(1, 1), t(2, 2), t(3, 3)))
+    yield prog("(decl - long r (call sel)) (print (e (var r)))", "(func sel long (params) ((ret (tern %s %s %s))))" % (t(1, 0), t(2, 2), t(3, 3)))
+    yield prog("(decl - int x (lit 1)) (compound add (var x) (bin add (var x) %s)) (print (e (var x)))" % t(1, 3))
     # (g) guards
     for d in (0, 1, -1, 3):
         for n in (0, 5, -9):
